@@ -212,9 +212,14 @@ func checkHeaders(j *job.Job, s *job.Sink, c int64, hs []hdr, imp hdr, importer 
 			return
 		}
 		reported[class] = true
-		if j.Property != "C13" && !strings.HasPrefix(class, "path-") && !strings.HasPrefix(class, "prefix-") {
+		switch {
+		case j.Property == "C13":
+		case j.Property == "C17" && (strings.HasPrefix(class, "path-") || strings.HasPrefix(class, "prefix-")):
 			// C17 borrows this family for its lookups through imports that name a revision;
 			// the revision table itself is C13's subject
+		case j.Property == "C12" && strings.HasPrefix(class, "instmodule-"):
+			// and C12 for attribution when several revisions of a module are loaded
+		default:
 			return
 		}
 		s.Violation(c, j.CaseID(c), j.Property+".revisions", class, detail, map[string]any{"headers": hs, "importer": importer}, facts)
@@ -319,6 +324,23 @@ func checkHeaders(j *job.Job, s *job.Sink, c int64, hs []hdr, imp hdr, importer 
 				u := ms.Modules["u"]
 				if pm := yang.FindModuleByPrefix(u, "x"); pm == nil || len(pm.Leaf) == 0 || pm.Leaf[0].Name != fmt.Sprintf("mark%d", want.ID) {
 					bad("prefix-denotes-wrong-revision", fmt.Sprintf("load order %v: %s: FindModuleByPrefix(u, x) is not module %d", p, importer, want.ID), nil)
+				}
+				// every node of every loaded revision belongs to the module of that name,
+				// however many revisions of it are loaded (C12)
+				for key, m := range ms.Modules {
+					if key == "u" {
+						continue
+					}
+					me := yang.ToEntry(m)
+					for _, e := range []*yang.Entry{me, me.Dir[m.Leaf[0].Name]} {
+						s.Count("instantiating_module_queries", 1)
+						if im, err := e.InstantiatingModule(); err != nil || im != m.Name {
+							bad("instmodule-with-several-revisions", fmt.Sprintf("load order %v: InstantiatingModule of %s in %s = %q, %v", p, e.Name, key, im, err), nil)
+						}
+						if ns := e.Namespace(); ns == nil || ns.Name != "urn:"+m.Name {
+							bad("instmodule-namespace", fmt.Sprintf("load order %v: Namespace of %s in %s", p, e.Name, key), nil)
+						}
+					}
 				}
 				ue := yang.ToEntry(u)
 				for _, h := range hs {
